@@ -29,10 +29,10 @@ const T = 2 * time.Second
 const delta = 100 * time.Millisecond
 
 type cfg struct {
-	R      uint32
-	NStart uint32
-	Two    bool // two concurrent confirmable requests (NSTART check)
-	Events int  // max number of non-tick events in a history
+	R         uint32
+	NStart    uint32
+	Two       bool // two concurrent confirmable requests (NSTART check)
+	Events    int  // max number of non-tick events in a history
 	WriteFail bool // the first datagram write fails with a transient error (the call returns an error at once)
 	Deadline  bool // the request context carries a deadline far beyond the retransmission span (instead of a plain cancel context)
 	BodyPeek  bool // the request has a payload whose reader the application has already read 4 bytes of
